@@ -803,7 +803,7 @@ func ruleRootPreload(rule string) func(*Ctx) {
 func ruleC11AtomicCheckThenAct(c *Ctx) {
 	const rule = "C11.atomic-check-then-act"
 	c.floor(rule, 40, "index/drive-touching calls in the exported methods of STFS and File")
-	ioS, ioF := c.field("pkg/fs", "STFS", "ioLock"), c.field("pkg/fs", "File", "ioLock")
+	ioS, ioF := c.mutex("fs.STFS"), c.mutex("fs.File")
 	iface := c.namedType("pkg/config", "MetadataPersister")
 	if ioS == nil || ioF == nil || iface == nil {
 		return
@@ -926,8 +926,8 @@ func ruleC11AtomicCheckThenAct(c *Ctx) {
 
 func ruleC11ExclusiveMode(c *Ctx) {
 	const rule = "C11.exclusive-mode"
-	fields := []*types.Var{c.field("pkg/fs", "STFS", "ioLock"), c.field("pkg/fs", "File", "ioLock"), c.field("pkg/operations", "Operations", "diskOperationLock"),
-		c.field("pkg/tape", "TapeManager", "readerLock"), c.field("pkg/tape", "TapeManager", "physicalLock")}
+	fields := []*types.Var{c.mutex("fs.STFS"), c.mutex("fs.File"), c.mutex("operations"),
+		c.mutex("tape.reader"), c.mutex("tape.physical")}
 	scan := func(cc *Ctx) int {
 		n := 0
 		for _, f := range cc.Funcs {
@@ -1218,7 +1218,7 @@ func ruleInitializingProvenance(rule string) func(*Ctx) {
 					case tv.Value != nil && tv.Value.String() == "false":
 						c.ok(rule, f, construct, arg.Pos(), false, "constant false: names are normalised")
 					case tv.Value != nil && tv.Value.String() == "true":
-						okk := strings.HasSuffix(strings.Split(root.Name, "$")[0], ".Initialize") && (index == nil || cs.Target != index)
+						okk := c.onlyFromInitialize(root, 0) && (index == nil || cs.Target != index)
 						c.verdictIf(okk, rule, f, construct, arg.Pos(), "constant true in a root-creating Initialize (the root's own spelling is stored verbatim)",
 							"initializing=true is passed to "+fn.Name()+" outside the creation of a fresh root: replayed names of existing content are then stored without normalisation, so equivalent spellings stop resolving and entries added later vanish after a rebuild")
 					default:
@@ -1239,6 +1239,68 @@ func ruleInitializingProvenance(rule string) func(*Ctx) {
 			c.unresolved("only %d initializing arguments found", n)
 		}
 	}
+}
+
+// onlyFromInitialize: f is an Initialize entry point, or an unexported function all of whose statically resolved call
+// sites lie in such functions (a root-creating step split out of Initialize).
+func (c *Ctx) onlyFromInitialize(f *FuncInfo, depth int) bool {
+	for f.Outer != nil {
+		f = f.Outer
+	}
+	if strings.HasSuffix(strings.Split(f.Name, "$")[0], ".Initialize") {
+		return true
+	}
+	if depth >= 3 || f.Decl == nil || f.Decl.Name.IsExported() {
+		return false
+	}
+	callers := 0
+	for _, g := range c.Funcs {
+		for _, cs := range g.calls {
+			if cs.Target != f {
+				continue
+			}
+			callers++
+			if g == f || !c.onlyFromInitialize(g, depth+1) {
+				return false
+			}
+		}
+	}
+	// the function must not escape as a value either
+	if f.Obj != nil {
+		for _, g := range c.Funcs {
+			info := g.Pkg.TypesInfo
+			escaped := false
+			callFun := map[ast.Expr]bool{}
+			walkOwn(g.Body(), func(n ast.Node) {
+				if call, ok := n.(*ast.CallExpr); ok {
+					callFun[ast.Unparen(call.Fun)] = true
+				}
+			})
+			walkOwn(g.Body(), func(n ast.Node) {
+				if se, ok := n.(*ast.SelectorExpr); ok && info.Uses[se.Sel] == types.Object(f.Obj) && !callFun[se] {
+					escaped = true
+				}
+				if id, ok := n.(*ast.Ident); ok && info.Uses[id] == types.Object(f.Obj) && !callFun[id] {
+					// identifiers inside a called selector are visited too: only flag bare uses
+					escaped = escaped || !isSelOfCall(g, id, callFun)
+				}
+			})
+			if escaped {
+				return false
+			}
+		}
+	}
+	return callers > 0
+}
+
+func isSelOfCall(g *FuncInfo, id *ast.Ident, callFun map[ast.Expr]bool) bool {
+	found := false
+	walkOwn(g.Body(), func(n ast.Node) {
+		if se, ok := n.(*ast.SelectorExpr); ok && se.Sel == id && callFun[se] {
+			found = true
+		}
+	})
+	return found
 }
 
 // ruleC17ResyncTolerates: in the resynchronisation loop of Index/Query a header-parse error is never returned
@@ -1754,6 +1816,50 @@ func ruleC03CounterIntegrity(c *Ctx) {
 	}
 }
 
+// sqlPiece is one piece of an SQL text built by fmt.Sprintf or by string concatenation: a literal or an operand.
+type sqlPiece struct {
+	lit  string
+	expr ast.Expr
+}
+
+// flattenSQL turns Sprintf(format, a, b, ...) / "lit" + a + "lit" + ... (and locals defined that way) into pieces.
+func flattenSQL(f *FuncInfo, e ast.Expr, depth int) []sqlPiece {
+	info := f.Pkg.TypesInfo
+	e = ast.Unparen(e)
+	if s, ok := constString(info, e); ok {
+		return []sqlPiece{{lit: s}}
+	}
+	switch x := e.(type) {
+	case *ast.BinaryExpr:
+		if x.Op == token.ADD {
+			return append(flattenSQL(f, x.X, depth), flattenSQL(f, x.Y, depth)...)
+		}
+	case *ast.CallExpr:
+		if isPkgFunc(calleeObj(info, x), "fmt", "Sprintf") && len(x.Args) >= 1 {
+			if format, ok := constString(info, x.Args[0]); ok {
+				var out []sqlPiece
+				parts := strings.Split(format, "%v")
+				for i, p := range parts {
+					out = append(out, sqlPiece{lit: p})
+					if i < len(parts)-1 && i+1 < len(x.Args) {
+						out = append(out, sqlPiece{expr: x.Args[i+1]})
+					}
+				}
+				return out
+			}
+		}
+	case *ast.Ident:
+		if depth < 2 {
+			if v, ok := info.Uses[x].(*types.Var); ok && !v.IsField() {
+				if st, _, _ := defOf(f, v); st != nil && len(st.Rhs) == 1 {
+					return flattenSQL(f, st.Rhs[0], depth+1)
+				}
+			}
+		}
+	}
+	return []sqlPiece{{expr: e}}
+}
+
 // ruleC04LocationOperands: in the last-position query the record column is the one multiplied by the record size.
 func ruleC04LocationOperands(c *Ctx) {
 	const rule = "C04.location-operands"
@@ -1762,34 +1868,44 @@ func ruleC04LocationOperands(c *Ctx) {
 	if f == nil {
 		return
 	}
-	info := f.Pkg.TypesInfo
 	n := 0
-	walkOwn(f.Body(), func(nd ast.Node) {
-		call, ok := nd.(*ast.CallExpr)
-		if !ok || !isPkgFunc(calleeObj(info, call), "fmt", "Sprintf") || len(call.Args) < 2 {
-			return
+	for _, cs := range f.calls {
+		fn, ok := cs.Callee.(*types.Func)
+		if !ok || fn.Name() != "Raw" || fn.Pkg() == nil || fn.Pkg().Path() != queriesPath || len(cs.Call.Args) == 0 {
+			continue
 		}
-		format, ok := constString(info, call.Args[0])
-		if !ok {
-			return
+		pieces := flattenSQL(f, cs.Call.Args[0], 0)
+		// the operand right before the literal that starts with "*$1", and the next operand after it
+		for i, p := range pieces {
+			if p.expr != nil || !strings.Contains(p.lit, "*$1") {
+				continue
+			}
+			var mul, add ast.Expr
+			for k := i - 1; k >= 0; k-- {
+				if pieces[k].expr != nil {
+					mul = pieces[k].expr
+					break
+				}
+				if strings.TrimSpace(strings.Trim(pieces[k].lit, "(")) != "" && k != i {
+					break
+				}
+			}
+			for k := i + 1; k < len(pieces); k++ {
+				if pieces[k].expr != nil {
+					add = pieces[k].expr
+					break
+				}
+			}
+			if mul == nil || add == nil {
+				continue
+			}
+			n++
+			mc, ac := nameClass(lastSelName(mul)), nameClass(lastSelName(add))
+			good := mc.axis == "rec" && ac.axis == "blk" && mc.age == "lastknown" && ac.age == "lastknown"
+			c.verdictIf(good, rule, f, "location", cs.Call.Pos(), "location = lastknownrecord*recordSize + lastknownblock",
+				fmt.Sprintf("the combined location multiplies %s by the record size and adds %s: rows are then ordered by the wrong quantity, so the 'last indexed' position is not the end of the tape once it spans more than one record", exprString(mul), exprString(add)))
 		}
-		i := strings.Index(format, "*$1")
-		if i < 0 {
-			return
-		}
-		n++
-		// index of the %v just before "*$1" and of the next %v after it
-		before := strings.Count(format[:i], "%v") // the multiplied operand is verb number `before` (1-based)
-		if before < 1 || before+1 > len(call.Args)-1 {
-			c.undecided(rule, f, "location", call.Pos(), "cannot map the operands of the location expression")
-			return
-		}
-		mul, add := call.Args[before], call.Args[before+1]
-		mc, ac := nameClass(lastSelName(mul)), nameClass(lastSelName(add))
-		good := mc.axis == "rec" && ac.axis == "blk" && mc.age == "lastknown" && ac.age == "lastknown"
-		c.verdictIf(good, rule, f, "location", call.Pos(), "location = lastknownrecord*recordSize + lastknownblock",
-			fmt.Sprintf("the combined location multiplies %s by the record size and adds %s: rows are then ordered by the wrong quantity, so the 'last indexed' position is not the end of the tape once it spans more than one record", exprString(mul), exprString(add)))
-	})
+	}
 	if n == 0 {
 		c.unresolved("no location expression (`... *$1 ...`) found in GetLastIndexedRecordAndBlock")
 	}
@@ -2462,7 +2578,7 @@ func constantInt(s string) (int64, bool) {
 func ruleC11LockHeldThroughout(c *Ctx) {
 	const rule = "C11.lock-held-throughout"
 	c.floor(rule, 2, "explicit ioLock releases in pkg/fs (plus one summary obligation)")
-	ioS, ioF := c.field("pkg/fs", "STFS", "ioLock"), c.field("pkg/fs", "File", "ioLock")
+	ioS, ioF := c.mutex("fs.STFS"), c.mutex("fs.File")
 	if ioS == nil || ioF == nil {
 		return
 	}
